@@ -8,6 +8,9 @@ use lexpr::parse::{CharSyntax, StringSyntax};
 use lexpr::{Number, Parser, Value};
 use std::fmt::Write as _;
 
+#[cfg(feature = "fast-float")]
+mod serdecheck;
+
 fn parse_opts(s: &str) -> Options {
     if s == "default" {
         return Options::default();
@@ -428,6 +431,129 @@ fn stack_op(op: &str, n: usize, dotted: bool) -> usize {
     }
 }
 
+/// value descriptor (prefix notation, space separated): N U T F I:<dec> D:<f64 bits hex> S:<hex utf8> C:<u32> Y:<hex> K:<hex>
+/// B:<hex> L<n> <n items> <tail>  V<n> <n items>
+fn parse_desc<'a, I: Iterator<Item = &'a str>>(it: &mut I) -> Value {
+    let t = it.next().expect("descriptor ended early");
+    let hs = |x: &str| String::from_utf8(hex(x)).expect("utf8 in descriptor");
+    match &t[..1] {
+        "N" => Value::Nil,
+        "U" => Value::Null,
+        "T" => Value::Bool(true),
+        "F" => Value::Bool(false),
+        "I" => { let d = &t[2..]; if let Ok(u) = d.parse::<u64>() { Value::from(u) } else { Value::from(d.parse::<i64>().unwrap()) } }
+        "D" => Value::from(f64::from_bits(u64::from_str_radix(&t[2..], 16).unwrap())),
+        "S" => Value::string(hs(&t[2..])),
+        "C" => Value::from(char::from_u32(t[2..].parse().unwrap()).unwrap()),
+        "Y" => Value::symbol(hs(&t[2..])),
+        "K" => Value::keyword(hs(&t[2..])),
+        "B" => Value::bytes(hex(&t[2..])),
+        "L" => {
+            let n: usize = t[1..].parse().unwrap();
+            let items: Vec<Value> = (0..n).map(|_| parse_desc(it)).collect();
+            let tail = parse_desc(it);
+            Value::append(items, tail)
+        }
+        "V" => {
+            let n: usize = t[1..].parse().unwrap();
+            Value::vector((0..n).map(|_| parse_desc(it)).collect::<Vec<Value>>())
+        }
+        _ => panic!("bad descriptor {}", t),
+    }
+}
+
+fn print_opts(s: &str) -> lexpr::print::Options {
+    use lexpr::print::*;
+    let mut o = Options::default();
+    if s == "default" { return o; }
+    if s == "elisp" { return Options::elisp(); }
+    for kv in s.split(',') {
+        let mut it = kv.split('=');
+        let (k, v) = (it.next().unwrap(), it.next().unwrap());
+        o = match (k, v) {
+            ("kw", "Octothorpe") => o.with_keyword_syntax(KeywordSyntax::Octothorpe),
+            ("kw", "ColonPrefix") => o.with_keyword_syntax(KeywordSyntax::ColonPrefix),
+            ("kw", "ColonPostfix") => o.with_keyword_syntax(KeywordSyntax::ColonPostfix),
+            ("nil", "Symbol") => o.with_nil_syntax(NilSyntax::Symbol),
+            ("nil", "Token") => o.with_nil_syntax(NilSyntax::Token),
+            ("nil", "EmptyList") => o.with_nil_syntax(NilSyntax::EmptyList),
+            ("nil", "False") => o.with_nil_syntax(NilSyntax::False),
+            ("bool", "Token") => o.with_bool_syntax(BoolSyntax::Token),
+            ("bool", "Symbol") => o.with_bool_syntax(BoolSyntax::Symbol),
+            ("vec", "Octothorpe") => o.with_vector_syntax(VectorSyntax::Octothorpe),
+            ("vec", "Brackets") => o.with_vector_syntax(VectorSyntax::Brackets),
+            ("bytes", "R6RS") => o.with_bytes_syntax(BytesSyntax::R6RS),
+            ("bytes", "R7RS") => o.with_bytes_syntax(BytesSyntax::R7RS),
+            ("bytes", "Elisp") => o.with_bytes_syntax(BytesSyntax::Elisp),
+            ("str", "R6RS") => o.with_string_syntax(StringSyntax::R6RS),
+            ("str", "Elisp") => o.with_string_syntax(StringSyntax::Elisp),
+            ("char", "R6RS") => o.with_char_syntax(CharSyntax::R6RS),
+            ("char", "Elisp") => o.with_char_syntax(CharSyntax::Elisp),
+            _ => panic!("bad print option {}={}", k, v),
+        };
+    }
+    o
+}
+
+/// stdin lines `<print opts>\t<descriptor>` -> one line each: hex of the printed text, `ERR`, or `PANIC`
+fn print_batch(out: &mut String) {
+    let mut input = String::new();
+    std::io::Read::read_to_string(&mut std::io::stdin(), &mut input).unwrap();
+    std::panic::set_hook(Box::new(|_| {}));
+    for line in input.lines() {
+        let mut parts = line.splitn(2, '\t');
+        let (o, d) = (parts.next().unwrap().to_string(), parts.next().unwrap_or("").to_string());
+        let r = std::panic::catch_unwind(move || {
+            let v = parse_desc(&mut d.split(' ').filter(|x| !x.is_empty()));
+            if o == "plain" { lexpr::to_vec(&v) } else { lexpr::to_vec_custom(&v, print_opts(&o)) }
+        });
+        match r {
+            Ok(Ok(bytes)) => { for b in bytes { write!(out, "{:02x}", b).unwrap(); } out.push('\n'); }
+            Ok(Err(_)) => out.push_str("ERR\n"),
+            Err(_) => out.push_str("PANIC\n"),
+        }
+    }
+}
+
+/// stdin lines `<parse opts>\t<hex input>` -> one JSON line each (as `parse`), `{"panic":true}` on a panic
+fn parse_batch(src: &str, api: &str, out: &mut String) {
+    let mut input = String::new();
+    std::io::Read::read_to_string(&mut std::io::stdin(), &mut input).unwrap();
+    std::panic::set_hook(Box::new(|_| {}));
+    for line in input.lines() {
+        let mut parts = line.splitn(2, '\t');
+        let (o, d) = (parts.next().unwrap().to_string(), parts.next().unwrap_or("").to_string());
+        let (src, api) = (src.to_string(), api.to_string());
+        let r = std::panic::catch_unwind(move || {
+            let mut o2 = String::new();
+            parse_one(&parse_opts(&o), &src, &api, hex(d.trim()), None, &mut o2);
+            o2
+        });
+        match r {
+            Ok(s) => { out.push_str(&s); out.push('\n'); }
+            Err(_) => out.push_str("{\"panic\":true}\n"),
+        }
+    }
+}
+
+fn parse_one(opts: &Options, src: &str, api: &str, data: Vec<u8>, fail_at: Option<usize>, out: &mut String) {
+    let opts = *opts;
+    if api == "single" {
+        let r = match src {
+            "str" => match std::str::from_utf8(&data) { Ok(s) => lexpr::from_str_custom(s, opts), Err(_) => { out.push_str("{\"skip\":\"not utf8\"}"); return; } },
+            "slice" => lexpr::from_slice_custom(&data, opts),
+            _ => lexpr::from_reader_custom(FaultReader { data, pos: 0, fail_at }, opts),
+        };
+        match r { Ok(v) => jvalue(out, &v), Err(e) => jerr(out, &e) }
+    } else {
+        match src {
+            "str" => match std::str::from_utf8(&data) { Ok(s) => run_parser(Parser::from_str_custom(s, opts), api, out), Err(_) => { out.push_str("{\"skip\":\"not utf8\"}"); } },
+            "slice" => run_parser(Parser::from_slice_custom(&data, opts), api, out),
+            _ => run_parser(Parser::from_reader_custom(FaultReader { data, pos: 0, fail_at }, opts), api, out),
+        }
+    }
+}
+
 fn main() {
     let a: Vec<String> = std::env::args().collect();
     let mut out = String::new();
@@ -455,21 +581,20 @@ fn main() {
                 hex(&a[5])
             };
             let fail_at: Option<usize> = a.get(6).and_then(|s| s.parse().ok());
-            if api == "single" {
-                let r = match src {
-                    "str" => match std::str::from_utf8(&data) { Ok(s) => lexpr::from_str_custom(s, opts), Err(_) => { println!("{{\"skip\":\"not utf8\"}}"); return; } },
-                    "slice" => lexpr::from_slice_custom(&data, opts),
-                    _ => lexpr::from_reader_custom(FaultReader { data, pos: 0, fail_at }, opts),
-                };
-                match r { Ok(v) => jvalue(&mut out, &v), Err(e) => jerr(&mut out, &e) }
-            } else {
-                match src {
-                    "str" => match std::str::from_utf8(&data) { Ok(s) => run_parser(Parser::from_str_custom(s, opts), api, &mut out), Err(_) => { println!("{{\"skip\":\"not utf8\"}}"); return; } },
-                    "slice" => run_parser(Parser::from_slice_custom(&data, opts), api, &mut out),
-                    _ => run_parser(Parser::from_reader_custom(FaultReader { data, pos: 0, fail_at }, opts), api, &mut out),
-                }
-            }
+            parse_one(&opts, src, api, data, fail_at, &mut out);
         }
+        #[cfg(feature = "fast-float")]
+        "serdecheck" => {
+            let (cases, bad) = serdecheck::serde_check();
+            write!(out, "{{\"cases\":{},\"bad\":[", cases).unwrap();
+            for (i, b) in bad.iter().take(8).enumerate() {
+                if i > 0 { out.push(','); }
+                jstr(&mut out, b.as_bytes());
+            }
+            out.push_str("]}");
+        }
+        "printbatch" => { print_batch(&mut out); print!("{}", out); return; }
+        "parsebatch" => { parse_batch(&a[2], &a[3], &mut out); print!("{}", out); return; }
         _ => panic!("unknown command"),
     }
     println!("{}", out);
